@@ -8,6 +8,7 @@ import LbfgsbVerif.Model.Basic
 import LbfgsbVerif.Model.SF
 import LbfgsbVerif.Model.Shell
 import LbfgsbVerif.Generated.BenchF
+import LbfgsbVerif.Model.Compact
 import Std.Data.HashMap
 
 open Lbfgsb
@@ -292,6 +293,20 @@ def handleShell (c : Ctx) (toks : List String) : Option (Ctx × List String) :=
     setTab fun t => { t with UPD := t.UPD.insert (keyV x) (.ok { f0, f0Old, grad, G }) }
   | ["SC", r] => (parseRes r parseF).bind fun r => setTab fun t => { t with SC := r }
   | ["run"] => some (c, runShell c)
+  | ["compact", xs, gs, v] => do
+    let X ← parseVs xs; let G ← parseVs gs; let v ← parseV v
+    let bc := compactBv X G v
+    let bd := (denseBfgs X G v.length).map (dot · v)
+    some (c, [s!"compact {showF (thetaOf X G)} {showV bc} {showV bd}"])
+  | ["mem", maxcor, eps, x0, g0, xs, gs] => do
+    let maxcor ← maxcor.toNat?; let eps ← parseF eps
+    let x0 ← parseV x0; let g0 ← parseV g0; let xs ← parseVs xs; let gs ← parseVs gs
+    -- replay a sequence of candidate updates; report accept flags and the final deques
+    let step := fun (st : List (Vec Float) × List (Vec Float) × Mats Float × List String) (xg : Vec Float × Vec Float) =>
+      let r := updateMats xg.1 xg.2 st.1 st.2.1 maxcor st.2.2.1 eps
+      (r.1, r.2.1, r.2.2.1, st.2.2.2 ++ [s!"{if r.2.2.2 then 1 else 0}:{r.1.length}:{matsLen r.2.2.1}"])
+    let fin := (xs.zip gs).foldl step ([x0], [g0], none, [])
+    some (c, [s!"mem {" ".intercalate fin.2.2.2} {showVs fin.1} {showVs fin.2.1}"])
   | ["ls", x0, f0, g0, d, nit, maxIter] => do
     let x0 ← parseV x0; let f0 ← parseF f0; let g0 ← parseV g0; let d ← parseV d
     let nit ← nit.toNat?; let maxIter ← maxIter.toNat?
